@@ -1,5 +1,6 @@
 (* C11 ReadIndex (ReadOnlySafe), node-local half. *)
 From Coq Require Import List NArith.
+From RaftV Require Safety ReadIndex.
 From RaftV Require Import Base Types Quorum Progress Tracker Storage Log Raft RawNode QuorumProofs RaftMono RaftRouting NodeProps PreVoteProofs LocalProofs FlowProofs LogProofs ConfProofs.
 Import ListNotations.
 Open Scope N_scope.
@@ -26,3 +27,20 @@ Theorem C11_reset_on_role_change : forall st r t r',
 Proof. exact reset_clears_read_only. Qed.
 Print Assumptions C11_reset_on_role_change.
 
+
+
+(* ---------- protocol level (Spec/ReadIndex.v over Spec/Safety.v) ---------- *)
+
+(* ReadOnlySafe for every execution of the protocol of Spec/Safety.v extended by read requests: the
+   leader of term t, still in term t, having committed an entry of its own term, takes a request;
+   nodes that are still in term t answer the heartbeat that carries it; once a majority of the
+   voters has answered, every entry that any leadership had committed when the request was made
+   lies at or below a position this leadership had itself committed by then, i.e. at or below the
+   index the read is served with.  (A later leadership cannot have committed anything before the
+   request: the majority that acknowledged it had already left term t and cannot answer.) *)
+Theorem C11_read_index_covers_protocol : forall vs p r,
+  ReadIndex.rreach vs p -> In r (snd p) -> Safety.majority vs (ReadIndex.has_acker r) ->
+  forall i' e' t', In (i', e', t') (ReadIndex.rd_c0 r) ->
+    exists i e, In (i, e, ReadIndex.rd_term r) (ReadIndex.rd_c0 r) /\ (i' <= i)%nat.
+Proof. exact ReadIndex.read_index_covers. Qed.
+Print Assumptions C11_read_index_covers_protocol.
